@@ -312,6 +312,11 @@ func (s *Server) readMessage() (json.RawMessage, error) {
 
 	// Validate content length against maximum
 	if contentLength > MaxContentLength {
+		// The length is known: skip the content, so that the next frame is read
+		// from its own first byte and not from the middle of this one.
+		if _, err := io.CopyN(io.Discard, s.reader, int64(contentLength)); err != nil {
+			return nil, err
+		}
 		return nil, fmt.Errorf("content length %d exceeds maximum allowed %d", contentLength, MaxContentLength)
 	}
 
